@@ -800,7 +800,7 @@ func planCall(t target, st *Step, rhs *target) outcome {
 	local := target{v: p, src: "p", slot: -1, cls: t.cls, kind: t.kind}
 	var o outcome
 	switch st.Form {
-	case "set":
+	case "set", "setv":
 		o = planWrite(local, st)
 	case "app":
 		if t.cls != "slice" {
